@@ -8,7 +8,7 @@
    [msg_wf] = what the Rust types guarantee plus "node lists are of the right family";
    [msg_small] = every byte string of the message is shorter than 2^64 (true of any Vec). *)
 From BT Require Import model.Prelude model.Krpc.
-From BT Require Import proofs.Bencode_Facts proofs.Compact_Facts proofs.Krpc_Facts proofs.Krpc_Decode proofs.Krpc_Reject.
+From BT Require Import proofs.Bencode_Facts proofs.Compact_Facts proofs.Krpc_Facts proofs.Krpc_Decode proofs.Krpc_Reject proofs.Krpc_Fuel.
 From Coq Require Import Permutation.
 
 (* The encoder emits exactly the canonical bencoding of the BEP dictionary: sorted keys,
@@ -97,12 +97,22 @@ Theorem c13_rejects :
      decode_msg (ser (BDict ((k_r, BDict (pre ++ kv :: post)) :: top_post)) ++ trailing) = None).
 Proof. exact (conj reject_qa_mismatch (conj reject_query_bad_id reject_response)). Qed.
 
+(* The model's recursion fuel is never the reason for a [None]: the library run never ends in
+   the out-of-fuel outcome, so [decode_msg b = None] means precheck or the library reported an
+   error (this is what makes [None] in c13_rejects, and in the correspondence runs, a refusal). *)
+Theorem c13_none_is_error : forall b : bytes,
+  snd (run_lib b) <> Oof /\
+  (decode_msg b = None ->
+   precheck b = None \/ exists e s, precheck b = Some e /\ run_lib (firstn e b) = (s, Fail)).
+Proof. exact (fun b => conj (run_lib_never_oof b) (decode_none_is_error b)). Qed.
+
 Print Assumptions c13_encode_canonical.
 Print Assumptions c13_encode_wrong_family.
 Print Assumptions c13_roundtrip.
 Print Assumptions c13_bencode_roundtrip.
 Print Assumptions c13_reorder_unknown_keys.
 Print Assumptions c13_rejects.
+Print Assumptions c13_none_is_error.
 
 (* ---- non-vacuity ---- *)
 Definition ex_id1 : N := be_to_N (bs "abcdefghij0123456789").
